@@ -31,7 +31,7 @@ ASSUMPTIONS = ['gain = largest absolute row sum of the operator extracted from a
 TIMEOUT = {'quick': 900, 'thorough': 3300}
 WORKER_BUDGET = {'quick': 600, 'thorough': 2700}
 MIN_HELD = {'quick': 500, 'thorough': 43654}
-IN_KINDS = ['randn', 'dynrange', 'const', 'outlier', 'ramp', 'small']
+IN_KINDS = ['randn', 'dynrange', 'const', 'outlier', 'ramp', 'small', 'stripes', 'offset']
 
 
 def cells(tier, seed):
